@@ -73,9 +73,9 @@ struct Spaces {
     jmut: MutSpace,
     ymut: MutSpace,
     dmut: MutSpace,
-    jnest: Vec<(String, Vec<u8>)>,
-    ynest: Vec<(String, Vec<u8>)>,
-    pnest: Vec<(String, String)>,
+    jnest_: OnceLock<Vec<(String, Vec<u8>)>>,
+    ynest_: OnceLock<Vec<(String, Vec<u8>)>>,
+    pnest_: OnceLock<Vec<(String, String)>>,
 }
 
 const SP_JTOK: usize = 0;
@@ -94,33 +94,29 @@ const NAMES: [&str; 11] = [
 ];
 
 impl Spaces {
+    // the nesting families are megabytes of text: built on first use (a respawned worker usually needs none)
+    fn jnest(&self) -> &Vec<(String, Vec<u8>)> {
+        self.jnest_.get_or_init(|| DEPTHS.iter().flat_map(|&d| json_nest(d).into_iter().map(move |(n, b)| (format!("{n}/{d}"), b))).collect())
+    }
+    fn ynest(&self) -> &Vec<(String, Vec<u8>)> {
+        self.ynest_.get_or_init(|| DEPTHS.iter().flat_map(|&d| yaml_nest(d).into_iter().map(move |(n, b)| (format!("{n}/{d}"), b))).collect())
+    }
+    fn pnest(&self) -> &Vec<(String, String)> {
+        self.pnest_.get_or_init(|| DEPTHS.iter().flat_map(|&d| program_nest(d).into_iter().map(move |(n, p)| (format!("{n}/{d}"), p))).collect())
+    }
     fn new(quick: bool) -> Self {
-        let mut jnest = Vec::new();
-        let mut ynest = Vec::new();
-        let mut pnest = Vec::new();
-        for d in DEPTHS {
-            for (n, b) in json_nest(d) {
-                jnest.push((format!("{n}/{d}"), b));
-            }
-            for (n, b) in yaml_nest(d) {
-                ynest.push((format!("{n}/{d}"), b));
-            }
-            for (n, p) in program_nest(d) {
-                pnest.push((format!("{n}/{d}"), p));
-            }
-        }
         Spaces {
             quick,
             jt_len: if quick { 4 } else { 5 },
-            yt_len: if quick { 3 } else { 4 },
+            yt_len: if quick { 4 } else { 4 },
             dt_len: if quick { 8 } else { 10 },
             pt_len: if quick { 3 } else { 4 },
             jmut: MutSpace::new(json_seeds(quick), quick),
             ymut: MutSpace::new(yaml_seeds(quick), quick),
             dmut: MutSpace::new(dsv_seeds(), quick),
-            jnest,
-            ynest,
-            pnest,
+            jnest_: OnceLock::new(),
+            ynest_: OnceLock::new(),
+            pnest_: OnceLock::new(),
         }
     }
     fn defs(&self) -> Vec<SpaceDef> {
@@ -132,11 +128,11 @@ impl Spaces {
             d(SP_JMUT, self.jmut.n(), 8192),
             d(SP_YMUT, self.ymut.n(), 2048),
             d(SP_DMUT, self.dmut.n(), 8192),
-            d(SP_JNEST, self.jnest.len() as u64, 1),
-            d(SP_YNEST, self.ynest.len() as u64, 1),
+            d(SP_JNEST, (DEPTHS.len() * json_nest(1).len()) as u64, 1),
+            d(SP_YNEST, DEPTHS.iter().map(|&d| yaml_nest(if d <= 5000 { 2 } else { 5001 }).len()).sum::<usize>() as u64, 1),
             d(SP_PTOK_SP, count_strings(PT.len() as u64, self.pt_len), 32768),
             d(SP_PTOK_CAT, count_strings(PT.len() as u64, self.pt_len), 32768),
-            d(SP_PNEST, self.pnest.len() as u64, 1),
+            d(SP_PNEST, (DEPTHS.len() * program_nest(1).len()) as u64, 1),
         ]
     }
     /// (format, input bytes, label)
@@ -157,11 +153,11 @@ impl Spaces {
                 let (b, k) = self.dmut.at(idx);
                 ("dsv", b, k.to_string())
             }
-            SP_JNEST => ("json", self.jnest[idx as usize].1.clone(), self.jnest[idx as usize].0.clone()),
-            SP_YNEST => ("yaml", self.ynest[idx as usize].1.clone(), self.ynest[idx as usize].0.clone()),
+            SP_JNEST => ("json", self.jnest()[idx as usize].1.clone(), self.jnest()[idx as usize].0.clone()),
+            SP_YNEST => ("yaml", self.ynest()[idx as usize].1.clone(), self.ynest()[idx as usize].0.clone()),
             SP_PTOK_SP => ("program", program_at(idx, " ").into_bytes(), String::new()),
             SP_PTOK_CAT => ("program", program_at(idx, "").into_bytes(), String::new()),
-            SP_PNEST => ("program", self.pnest[idx as usize].1.clone().into_bytes(), self.pnest[idx as usize].0.clone()),
+            SP_PNEST => ("program", self.pnest()[idx as usize].1.clone().into_bytes(), self.pnest()[idx as usize].0.clone()),
             _ => unreachable!(),
         }
     }
@@ -187,40 +183,51 @@ impl core::fmt::Write for Sink {
 struct Obs {
     h: u64,
     calls: u64,
+    panics: Vec<PanicRec>,
 }
 impl Obs {
-    fn note<T: std::hash::Hash>(&mut self, t: T) {
-        self.h = h64(&(self.h, t));
+    /// One subject call: its result is folded into the fingerprint; a panic is recorded and the
+    /// traversal continues, so one defect does not mask another on the same input.
+    fn t<T: std::hash::Hash>(&mut self, f: impl FnOnce() -> T) {
         self.calls += 1;
+        match pcatch(f) {
+            Ok(v) => self.h = h64(&(self.h, v)),
+            Err(p) => {
+                self.h = h64(&(self.h, "panic"));
+                if self.panics.len() < 16 {
+                    self.panics.push(p);
+                }
+            }
+        }
     }
 }
 
 /// Visit a value through the generic document traits, touching every accessor.
 fn touch_value<V: DocumentValue>(v: &V, obs: &mut Obs, deep: bool) {
-    obs.note(v.type_name());
-    obs.note(v.is_null());
-    obs.note(v.as_bool());
-    obs.note(v.as_i64());
-    obs.note(v.as_f64().map(f64::to_bits));
-    obs.note(v.number_literal().map(|c| c.len()));
-    obs.note(v.as_str().map(|c| c.len()));
-    obs.note(v.key_string().map(|c| c.len()));
-    obs.note(v.is_error());
-    obs.note(v.error_message());
-    obs.note((v.is_bool(), v.is_number(), v.is_string(), v.is_array(), v.is_object(), v.is_iterable()));
+    obs.t(|| v.type_name());
+    obs.t(|| v.is_null());
+    obs.t(|| v.as_bool());
+    obs.t(|| v.as_i64());
+    obs.t(|| v.as_f64().map(f64::to_bits));
+    obs.t(|| v.number_literal().map(|c| c.len()));
+    obs.t(|| v.as_str().map(|c| c.len()));
+    obs.t(|| v.key_string().map(|c| c.len()));
+    obs.t(|| v.is_error());
+    obs.t(|| v.error_message());
+    obs.t(|| (v.is_bool(), v.is_number(), v.is_string(), v.is_array(), v.is_object(), v.is_iterable()));
     if !deep {
         return;
     }
     if let Some(f) = v.as_object() {
-        obs.note(f.is_empty());
+        obs.t(|| f.is_empty());
         let mut n = 0usize;
         let mut cur = f.clone();
         while let Some((field, rest)) = cur.uncons() {
-            obs.note(field.key_str().map(|c| c.len()));
-            obs.note(field.key.type_name());
-            obs.note(field.value.type_name());
-            obs.note(field.key_cursor.text_position());
-            obs.note(field.value_cursor.text_position());
+            obs.t(|| field.key_str().map(|c| c.len()));
+            obs.t(|| field.key.type_name());
+            obs.t(|| field.value.type_name());
+            obs.t(|| field.key_cursor.text_position());
+            obs.t(|| field.value_cursor.text_position());
             cur = rest;
             n += 1;
             if n > 100_000 {
@@ -228,20 +235,20 @@ fn touch_value<V: DocumentValue>(v: &V, obs: &mut Obs, deep: bool) {
             }
         }
         if n <= 64 {
-            obs.note(f.len());
-            obs.note(f.keys().len());
-            obs.note(f.find("a").map(|x| x.type_name()));
-            obs.note(f.find_cursor("a").and_then(|c| c.text_position()));
-            obs.note(f.find("").is_some());
-            obs.note(f.all_fields().len());
+            obs.t(|| f.len());
+            obs.t(|| f.keys().len());
+            obs.t(|| f.find("a").map(|x| x.type_name()));
+            obs.t(|| f.find_cursor("a").and_then(|c| c.text_position()));
+            obs.t(|| f.find("").is_some());
+            obs.t(|| f.all_fields().len());
         }
     }
     if let Some(e) = v.as_array() {
-        obs.note(e.is_empty());
+        obs.t(|| e.is_empty());
         let mut n = 0usize;
         let mut cur = e;
         while let Some((val, rest)) = cur.uncons() {
-            obs.note(val.type_name());
+            obs.t(|| val.type_name());
             cur = rest;
             n += 1;
             if n > 100_000 {
@@ -250,50 +257,54 @@ fn touch_value<V: DocumentValue>(v: &V, obs: &mut Obs, deep: bool) {
         }
         let mut cur = e;
         while let Some((c, rest)) = cur.uncons_cursor() {
-            obs.note(c.text_position());
+            obs.t(|| c.text_position());
             cur = rest;
         }
         if n <= 64 {
-            obs.note(e.len());
+            obs.t(|| e.len());
             for i in 0..n + 2 {
-                obs.note(e.get(i).map(|x| x.type_name()));
-                obs.note(e.get_cursor(i).and_then(|c| c.text_position()));
+                obs.t(|| e.get(i).map(|x| x.type_name()));
+                obs.t(|| e.get_cursor(i).and_then(|c| c.text_position()));
             }
-            obs.note(e.get(usize::MAX).is_some());
-            obs.note(e.collect_values().len());
-            obs.note(e.collect_cursors().len());
+            obs.t(|| e.get(usize::MAX).is_some());
+            obs.t(|| e.collect_values().len());
+            obs.t(|| e.collect_cursors().len());
         }
     }
 }
 
 fn touch_cursor<C: DocumentCursor>(c: &C, obs: &mut Obs, print: bool) {
-    obs.note(c.is_container());
-    obs.note(c.text_position());
-    obs.note(c.line());
-    obs.note(c.column());
-    obs.note(c.document_index());
-    obs.note(c.anchor().map(|s| s.len()));
-    obs.note(c.alias().map(|s| s.len()));
-    obs.note(c.explicit_tag().map(|s| s.len()));
-    obs.note(c.style());
-    obs.note(c.canonicalize_numbers());
-    obs.note(c.line_comment().map(|s| s.len()));
-    obs.note(c.line_comment_raw().map(|s| s.len()));
-    obs.note(c.line_comment_checked().map(|o| o.map(|s| s.len())).ok());
-    obs.note(c.is_falsy());
-    obs.note(c.parent().and_then(|p| p.text_position()));
+    obs.t(|| c.is_container());
+    obs.t(|| c.text_position());
+    obs.t(|| c.line());
+    obs.t(|| c.column());
+    obs.t(|| c.document_index());
+    obs.t(|| c.anchor().map(|s| s.len()));
+    obs.t(|| c.alias().map(|s| s.len()));
+    obs.t(|| c.explicit_tag().map(|s| s.len()));
+    obs.t(|| c.style());
+    obs.t(|| c.canonicalize_numbers());
+    obs.t(|| c.line_comment().map(|s| s.len()));
+    obs.t(|| c.line_comment_raw().map(|s| s.len()));
+    obs.t(|| c.line_comment_checked().map(|o| o.map(|s| s.len())).ok());
+    obs.t(|| c.is_falsy());
+    obs.t(|| c.parent().and_then(|p| p.text_position()));
     if print {
         for (ind, sort) in [(IndentSpec::COMPACT, false), (IndentSpec::spaces(2), false), (IndentSpec::spaces(2), true)] {
             let mut s = Sink(0);
+            stage("cursor.stream_json");
             let r = c.stream_json(&mut s, ind, sort);
-            obs.note((r.is_ok(), s.0));
+            obs.t(|| (r.is_ok(), s.0));
             let mut s = Sink(0);
+            stage("cursor.stream_yaml");
             let r = c.stream_yaml(&mut s, ind, sort);
-            obs.note((r.is_ok(), s.0));
+            obs.t(|| (r.is_ok(), s.0));
         }
         let mut s = Sink(0);
+        stage("cursor.stream_yaml_as_document");
         let r = c.stream_yaml_as_document(&mut s, IndentSpec::spaces(2), false);
-        obs.note((r.is_ok(), s.0));
+        obs.t(|| (r.is_ok(), s.0));
+        stage("walk");
     }
 }
 
@@ -304,12 +315,21 @@ fn walk<C: DocumentCursor>(root: C, obs: &mut Obs, small: bool, mut extra: impl 
     let mut nodes = 0usize;
     while let Some(c) = stack.pop() {
         nodes += 1;
-        // printing at every node is quadratic: every node for small inputs, the first 64 otherwise
-        let print = small || nodes <= 64;
-        touch_cursor(&c, obs, print);
+        // printing at every node is quadratic: every node for small inputs; large (nesting-family)
+        // inputs are printed from the root only (by the caller) and the first 64 nodes get the deep accessors
+        let full = small || nodes <= 64;
         let v = c.value();
-        touch_value(&v, obs, print);
-        extra(&c, obs);
+        if full {
+            touch_cursor(&c, obs, small);
+            touch_value(&v, obs, true);
+            extra(&c, obs);
+        } else {
+            // beyond the first 64 nodes of a large input only the O(1) accessors (several others are
+            // linear in the subtree, which would make the walk itself quadratic)
+            obs.t(|| v.type_name());
+            obs.t(|| c.text_position());
+            obs.t(|| c.is_container());
+        }
         if let Some(s) = c.next_sibling() {
             stack.push(s);
         }
@@ -325,163 +345,187 @@ fn walk<C: DocumentCursor>(root: C, obs: &mut Obs, small: bool, mut extra: impl 
 
 fn json_subject(b: &[u8], nest: bool, obs: &mut Obs) {
     let small = b.len() <= 256;
+    stage("validate");
     let r = succinctly::json::validate::validate(b);
-    obs.note(r.as_ref().map_err(|e| format!("{e}").len()).is_ok());
+    obs.t(|| r.as_ref().map_err(|e| format!("{e}").len()).is_ok());
     if let Err(e) = &r {
-        obs.note(format!("{e:?}").len());
+        obs.t(|| format!("{e:?}").len());
     }
+    stage("Index::build");
     let ix = JsonIndex::build(b);
-    obs.note((ix.ib_len(), ix.bp().len()));
+    obs.t(|| (ix.ib_len(), ix.bp().len()));
     let root = ix.root(b);
+    stage("walk");
     let nodes = walk(root, obs, small, |c, obs| {
-        obs.note(c.text_range());
-        obs.note(c.raw_bytes().map(|r| r.len()));
-        obs.note(c.bp_position());
+        obs.t(|| c.text_range());
+        obs.t(|| c.raw_bytes().map(|r| r.len()));
+        obs.t(|| c.bp_position());
         match c.value() {
             StandardJson::String(s) => {
-                obs.note(s.raw_bytes().len());
-                obs.note(s.raw_and_escaped().1);
-                obs.note(s.as_str().map(|x| x.len()).map_err(|e| format!("{e}")));
+                obs.t(|| s.raw_bytes().len());
+                obs.t(|| s.raw_and_escaped().1);
+                obs.t(|| s.as_str().map(|x| x.len()).map_err(|e| format!("{e}")));
             }
             StandardJson::Number(n) => {
-                obs.note(n.raw_bytes().len());
-                obs.note(n.as_i64().ok());
-                obs.note(n.as_f64().ok().map(f64::to_bits));
+                obs.t(|| n.raw_bytes().len());
+                obs.t(|| n.as_i64().ok());
+                obs.t(|| n.as_f64().ok().map(f64::to_bits));
             }
-            StandardJson::Error(m) => obs.note(m),
+            StandardJson::Error(m) => obs.t(|| m),
             _ => {}
         }
         if small {
             for ch in c.children() {
-                obs.note(ch.text_position());
+                obs.t(|| ch.text_position());
             }
         }
     });
-    obs.note(nodes);
+    obs.t(|| nodes);
+    if !small {
+        for (ind, name) in [(IndentSpec::COMPACT, "root.stream_json"), (IndentSpec::spaces(2), "root.stream_json")] {
+            stage(name);
+            let mut s = Sink(0);
+            let r = root.stream_json(&mut s, ind, false);
+            obs.t(|| (r.is_ok(), s.0));
+        }
+        for ind in [IndentSpec::COMPACT, IndentSpec::spaces(2)] {
+            stage("root.stream_yaml");
+            let mut s = Sink(0);
+            let r = root.stream_yaml(&mut s, ind, false);
+            obs.t(|| (r.is_ok(), s.0));
+        }
+    }
     if small {
         for off in 0..=b.len() + 1 {
-            obs.note(root.cursor_at_offset(off).and_then(|c| c.text_position()));
-            obs.note(ix.to_line_column(off, b));
+            obs.t(|| root.cursor_at_offset(off).and_then(|c| c.text_position()));
+            obs.t(|| ix.to_line_column(off, b));
         }
         for line in 0..4 {
             for col in 0..4 {
-                obs.note(root.cursor_at_position(line, col).and_then(|c| c.text_position()));
-                obs.note(ix.to_offset(line, col, b));
+                obs.t(|| root.cursor_at_position(line, col).and_then(|c| c.text_position()));
+                obs.t(|| ix.to_offset(line, col, b));
             }
         }
         for k in 0..ix.ib_len() + 2 {
-            obs.note(ix.ib_select1(k));
-            obs.note(ix.ib_rank1(k));
+            obs.t(|| ix.ib_select1(k));
+            obs.t(|| ix.ib_rank1(k));
         }
     }
     if !nest {
+        stage("to_owned_cursor");
         let o = to_owned_cursor(&root);
-        obs.note(o.to_json().len());
+        obs.t(|| o.to_json().len());
     }
     // the simple-cursor index over the same bytes
+    stage("SimpleJsonIndex");
     let sx = SimpleJsonIndex::build(b);
     let sc = sx.structural_count();
-    obs.note(sc);
+    obs.t(|| sc);
     if small {
         for k in 0..sc + 1 {
             if let Some(p) = sx.structural_pos(k) {
-                obs.note(sx.structural_index(p));
-                obs.note(sx.find_close(b, p));
-                obs.note(sx.skip_value(b, p));
+                obs.t(|| sx.structural_index(p));
+                obs.t(|| sx.find_close(b, p));
+                obs.t(|| sx.skip_value(b, p));
                 if let Some(ch) = sx.children(b, p) {
-                    obs.note(ch.take(1000).count());
+                    obs.t(|| ch.take(1000).count());
                 }
             }
         }
         for p in 0..b.len() + 1 {
-            obs.note(sx.skip_value(b, p));
-            obs.note(sx.find_close(b, p));
+            obs.t(|| sx.skip_value(b, p));
+            obs.t(|| sx.find_close(b, p));
         }
     } else {
-        obs.note(sx.structural_positions(b).take(1_000_000).count());
-        obs.note(sx.find_close(b, 0));
-        obs.note(sx.skip_value(b, 0));
+        obs.t(|| sx.structural_positions(b).take(1_000_000).count());
+        obs.t(|| sx.find_close(b, 0));
+        obs.t(|| sx.skip_value(b, 0));
     }
 }
 
 fn yaml_subject(b: &[u8], nest: bool, obs: &mut Obs) {
     let small = b.len() <= 256;
+    stage("validate");
     let r = succinctly::yaml::validate::validate(b);
-    obs.note(r.as_ref().map_err(|e| format!("{e}").len()).is_ok());
+    obs.t(|| r.as_ref().map_err(|e| format!("{e}").len()).is_ok());
+    stage("Index::build");
     match YamlIndex::build(b) {
         Err(e) => {
-            obs.note(format!("{e}").len());
-            obs.note(format!("{e:?}").len());
+            obs.t(|| format!("{e}").len());
+            obs.t(|| format!("{e:?}").len());
         }
         Ok(ix) => {
-            obs.note((ix.ib_len(), ix.bp().len(), ix.ty_len(), ix.has_aliases()));
+            obs.t(|| (ix.ib_len(), ix.bp().len(), ix.ty_len(), ix.has_aliases()));
             let root = ix.root(b);
+            stage("walk");
             let nodes = walk(root, obs, small, |c, obs| {
-                obs.note(c.raw_bytes().map(|r| r.len()));
-                obs.note(c.text_end_position());
-                obs.note(c.bp_position());
-                obs.note((c.kind(), c.tag(), c.is_alias()));
-                obs.note(c.resolve_alias_target_cursor().and_then(|t| t.text_position()));
+                obs.t(|| c.raw_bytes().map(|r| r.len()));
+                obs.t(|| c.text_end_position());
+                obs.t(|| c.bp_position());
+                obs.t(|| (c.kind(), c.tag(), c.is_alias()));
+                obs.t(|| c.resolve_alias_target_cursor().and_then(|t| t.text_position()));
                 match c.value() {
                     YamlValue::String(s) => {
-                        obs.note(s.raw_bytes().len());
-                        obs.note(s.is_unquoted());
-                        obs.note(s.as_str().map(|x| x.len()).map_err(|e| format!("{e}")));
+                        obs.t(|| s.raw_bytes().len());
+                        obs.t(|| s.is_unquoted());
+                        obs.t(|| s.as_str().map(|x| x.len()).map_err(|e| format!("{e}")));
                     }
                     YamlValue::Alias { anchor_name, target } => {
-                        obs.note(anchor_name.len());
-                        obs.note(target.and_then(|t| t.text_position()));
+                        obs.t(|| anchor_name.len());
+                        obs.t(|| target.and_then(|t| t.text_position()));
                     }
-                    YamlValue::Error(m) => obs.note(m),
+                    YamlValue::Error(m) => obs.t(|| m),
                     _ => {}
                 }
                 if small {
                     for ch in c.children() {
-                        obs.note(ch.text_position());
+                        obs.t(|| ch.text_position());
                     }
                 }
             });
-            obs.note(nodes);
-            obs.note(root.to_json().len());
-            obs.note(root.to_json_document().len());
-            for (ind, sort) in [(IndentSpec::COMPACT, false), (IndentSpec::spaces(2), false), (IndentSpec::spaces(2), true)] {
+            obs.t(|| nodes);
+            stage("to_json");
+            obs.t(|| root.to_json().len());
+            stage("to_json_document");
+            obs.t(|| root.to_json_document().len());
+            let variants: &[(IndentSpec, bool)] = if small { &[(IndentSpec::COMPACT, false), (IndentSpec::spaces(2), false), (IndentSpec::spaces(2), true)] } else { &[(IndentSpec::COMPACT, false), (IndentSpec::spaces(2), false)] };
+            for &(ind, sort) in variants {
                 let mut s = Sink(0);
+                stage("stream_json_document");
                 let r = root.stream_json_document(&mut s, ind, sort);
-                obs.note((r.is_ok(), s.0));
+                obs.t(|| (r.is_ok(), s.0));
                 let mut s = Sink(0);
+                stage("stream_yaml_document");
                 let r = root.stream_yaml_document(&mut s, ind, sort);
-                obs.note((r.is_ok(), s.0));
+                obs.t(|| (r.is_ok(), s.0));
             }
             if small {
                 for off in 0..=b.len() + 1 {
-                    obs.note(root.cursor_at_offset(off).and_then(|c| c.text_position()));
-                    obs.note(ix.to_line_column(off, b));
-                    obs.note(ix.find_bp_at_text_pos(off));
+                    obs.t(|| root.cursor_at_offset(off).and_then(|c| c.text_position()));
+                    obs.t(|| ix.to_line_column(off, b));
+                    obs.t(|| ix.find_bp_at_text_pos(off));
                 }
                 for line in 0..4 {
                     for col in 0..4 {
-                        obs.note(root.cursor_at_position(line, col).and_then(|c| c.text_position()));
-                        obs.note(ix.to_offset(line, col, b));
+                        obs.t(|| root.cursor_at_position(line, col).and_then(|c| c.text_position()));
+                        obs.t(|| ix.to_offset(line, col, b));
                     }
                 }
                 for k in 0..ix.bp().len() + 2 {
-                    obs.note(ix.bp_to_text_pos(k));
-                    obs.note(ix.bp_to_text_end_pos(k));
-                    obs.note(ix.get_anchor_name(k).map(|s| s.len()));
-                    obs.note(ix.get_tag(k).map(|s| s.len()));
-                    obs.note(ix.get_alias_target(k));
+                    obs.t(|| ix.bp_to_text_pos(k));
+                    obs.t(|| ix.bp_to_text_end_pos(k));
+                    obs.t(|| ix.get_anchor_name(k).map(|s| s.len()));
+                    obs.t(|| ix.get_tag(k).map(|s| s.len()));
+                    obs.t(|| ix.get_alias_target(k));
                 }
             }
             if !nest {
+                stage("to_owned_cursor");
                 let o = to_owned_cursor(&root);
-                obs.note(o.to_json().len());
+                obs.t(|| o.to_json().len());
             }
         }
     }
-}
-
-fn strip_q(f: &[u8]) -> &[u8] {
-    f
 }
 
 fn dsv_subject(b: &[u8], obs: &mut Obs) {
@@ -489,32 +533,31 @@ fn dsv_subject(b: &[u8], obs: &mut Obs) {
     for (ci, cfg) in configs.iter().enumerate() {
         let d = if ci == 0 { Dsv::parse(b) } else { Dsv::parse_with_config(b, cfg) };
         let rc = d.row_count();
-        obs.note(rc);
-        obs.note((d.index().marker_count(), d.index().row_count(), d.index().is_empty()));
+        obs.t(|| rc);
+        obs.t(|| (d.index().marker_count(), d.index().row_count(), d.index().is_empty()));
         let mut nrows = 0usize;
         for row in d.rows() {
             nrows += 1;
             let mut nf = 0usize;
             for f in row.fields() {
-                obs.note(f.len());
-                obs.note(strip_q(f).len());
+                obs.t(|| f.len());
                 nf += 1;
             }
             for i in 0..nf + 2 {
-                obs.note(row.get(i).map(|f| f.len()));
+                obs.t(|| row.get(i).map(|f| f.len()));
             }
-            obs.note(row.get(usize::MAX).is_some());
+            obs.t(|| row.get(usize::MAX).is_some());
         }
-        obs.note(nrows);
+        obs.t(|| nrows);
         for n in 0..rc + 2 {
-            obs.note(d.row(n).map(|r| r.fields().count()));
+            obs.t(|| d.row(n).map(|r| r.fields().count()));
         }
-        obs.note(d.row(usize::MAX).is_some());
+        obs.t(|| d.row(usize::MAX).is_some());
         // cursor walks: field by field, row by row, goto_row
         let mut c = d.cursor();
         let mut steps = 0;
         loop {
-            obs.note((c.position(), c.at_end(), c.current_field().len(), c.current_field_str().map(|s| s.len()).ok()));
+            obs.t(|| (c.position(), c.at_end(), c.current_field().len(), c.current_field_str().map(|s| s.len()).ok()));
             steps += 1;
             if !c.next_field() || steps > 10_000 {
                 break;
@@ -523,35 +566,36 @@ fn dsv_subject(b: &[u8], obs: &mut Obs) {
         let mut c = d.cursor();
         let mut steps = 0;
         while c.next_row() && steps < 10_000 {
-            obs.note((c.position(), c.current_field().len()));
+            obs.t(|| (c.position(), c.current_field().len()));
             steps += 1;
         }
         for n in 0..rc + 2 {
             let mut c = d.cursor();
-            obs.note((c.goto_row(n), c.position(), c.current_field().len()));
-            obs.note(c.next_field());
-            obs.note(c.current_field().len());
+            obs.t(|| (c.goto_row(n), c.position(), c.current_field().len()));
+            obs.t(|| c.next_field());
+            obs.t(|| c.current_field().len());
         }
         for k in 0..b.len().min(64) + 2 {
-            obs.note((d.index().markers_rank1(k), d.index().markers_select1(k), d.index().newlines_rank1(k), d.index().newlines_select1(k)));
+            obs.t(|| (d.index().markers_rank1(k), d.index().markers_select1(k), d.index().newlines_rank1(k), d.index().newlines_select1(k)));
         }
     }
 }
 
 fn program_subject(s: &str, obs: &mut Obs) {
     for mode in [ParserMode::Jq, ParserMode::Yq] {
+        stage("parse");
         match parse_with_mode(s, mode) {
-            Ok(_) => obs.note(1u8),
+            Ok(_) => obs.t(|| 1u8),
             Err(e) => {
-                obs.note(e.position);
-                obs.note(format!("{e}").len());
+                obs.t(|| e.position);
+                obs.t(|| format!("{e}").len());
             }
         }
         match parse_program_with_mode(s, mode) {
-            Ok(_) => obs.note(2u8),
+            Ok(_) => obs.t(|| 2u8),
             Err(e) => {
-                obs.note(e.position);
-                obs.note(format!("{e}").len());
+                obs.t(|| e.position);
+                obs.t(|| format!("{e}").len());
             }
         }
     }
@@ -560,7 +604,11 @@ fn program_subject(s: &str, obs: &mut Obs) {
 // ---------------------------------------------------------------- running --
 
 fn example(space: &str, fmt: &str, bytes: &[u8], label: &str, p: Option<&PanicRec>) -> Value {
-    let mut v = json!({"kind": "lib", "side": "rust", "space": space, "format": fmt, "input_hex": hex(bytes), "input": show(bytes), "label": label});
+    let mut v = json!({"kind": "lib", "side": "rust", "space": space, "format": fmt, "input_hex": hex(bytes), "input": show(bytes), "label": label, "input_len": bytes.len()});
+    if bytes.len() > 4096 && space.ends_with("/nesting") {
+        // regenerated from (space, label) on replay
+        v.as_object_mut().unwrap().remove("input_hex");
+    }
     if let (Some(p), Value::Object(m)) = (p, &mut v) {
         m.insert("panic".into(), panic_json(p));
     }
@@ -585,11 +633,17 @@ fn run_input(space: &str, fmt: &str, bytes: &[u8], label: &str, nest: bool, rep:
         _ => unreachable!(),
     };
     rep.trans(obs.calls.max(1));
+    let mut panics = std::mem::take(&mut obs.panics);
     match r {
         Ok(()) => rep.distinct(&(fmt, obs.h)),
-        Err(p) => {
-            let sig = panic_sig(&p);
-            rep.fail(&sig, size, || example(space, fmt, bytes, label, Some(&p)));
+        Err(p) => panics.push(p),
+    }
+    let mut seen: Vec<String> = Vec::new();
+    for p in &panics {
+        let sig = panic_sig(p);
+        if !seen.contains(&sig) {
+            rep.fail(&sig, size, || example(space, fmt, bytes, label, Some(p)));
+            seen.push(sig);
         }
     }
 }
@@ -598,14 +652,33 @@ fn run_idx(space: usize, idx: u64, rep: &mut Report) {
     let sp = spaces(tier_is_quick());
     let (fmt, bytes, label) = sp.input(space, idx);
     let nest = matches!(space, SP_JNEST | SP_YNEST | SP_PNEST);
+    stage_journal(nest);
     run_input(NAMES[space], fmt, &bytes, &label, nest, rep);
     if idx % 50021 == 17 && space != SP_JNEST && space != SP_YNEST && space != SP_PNEST {
         rep.sample(|| json!({"space": NAMES[space], "input": show(&bytes), "variant": label}));
     }
 }
 
+/// Bytes of a recorded case: the recorded hex, or (large nesting inputs) regenerated from space + label.
+fn case_bytes(case: &Value) -> Vec<u8> {
+    if let Some(h) = case["input_hex"].as_str() {
+        return unhex(h);
+    }
+    let sp = spaces(tier_is_quick());
+    let label = case["label"].as_str().unwrap_or("");
+    let space = case["space"].as_str().unwrap_or("");
+    let find = |v: &Vec<(String, Vec<u8>)>| v.iter().find(|x| x.0 == label).map(|x| x.1.clone());
+    let r = match space {
+        "json/nesting" => find(sp.jnest()),
+        "yaml/nesting" => find(sp.ynest()),
+        "program/nesting" => sp.pnest().iter().find(|x| x.0 == label).map(|x| x.1.clone().into_bytes()),
+        _ => None,
+    };
+    r.unwrap_or_else(|| panic!("replay case has neither input_hex nor a known nesting label"))
+}
+
 fn run_case(case: &Value, rep: &mut Report) {
-    let bytes = unhex(case["input_hex"].as_str().unwrap_or(""));
+    let bytes = case_bytes(case);
     let fmt = match case["format"].as_str().unwrap_or("json") {
         "json" => "json",
         "yaml" => "yaml",
@@ -614,6 +687,7 @@ fn run_case(case: &Value, rep: &mut Report) {
     };
     let space = case["space"].as_str().unwrap_or("replay").to_string();
     let nest = space.ends_with("/nesting");
+    stage_journal(true);
     run_input(&space, fmt, &bytes, case["label"].as_str().unwrap_or(""), nest, rep);
 }
 
@@ -628,32 +702,37 @@ fn on_crash(cr: CaseRef<'_>, crash: &Crash, rep: &mut Report) {
             let (f, b, l) = spaces(tier_is_quick()).input(s, i);
             (NAMES[s].to_string(), f.to_string(), b, l)
         }
-        CaseRef::Val(v) => (v["space"].as_str().unwrap_or("replay").to_string(), v["format"].as_str().unwrap_or("json").to_string(), unhex(v["input_hex"].as_str().unwrap_or("")), v["label"].as_str().unwrap_or("").to_string()),
+        CaseRef::Val(v) => (v["space"].as_str().unwrap_or("replay").to_string(), v["format"].as_str().unwrap_or("json").to_string(), case_bytes(v), v["label"].as_str().unwrap_or("").to_string()),
     };
     rep.space(&space);
     rep.input();
     rep.trans(1);
     let family = label.split('/').next().unwrap_or("");
     let seam = if family.is_empty() { format!("lib-{fmt}") } else { format!("lib-{fmt}:{family}") };
-    match death_verdict(crash, &seam) {
+    // documents: the API that was running names the root cause; programs: the parser construct does too
+    let seam = if crash.stage.is_empty() {
+        seam
+    } else if fmt == "program" && !family.is_empty() {
+        format!("{fmt}:{}:{family}", crash.stage)
+    } else {
+        format!("{fmt}:{}", crash.stage)
+    };
+    let probe_case = json!({"kind": "lib", "side": "rust", "space": space, "format": fmt, "label": label, "input_hex": if bytes.len() <= 4096 || !space.ends_with("/nesting") { json!(hex(&bytes)) } else { Value::Null }});
+    let key = format!("{space}|{family}|{}", crash.stage);
+    let tier = if tier_is_quick() { "quick" } else { "thorough" };
+    match death_verdict(crash, &seam, &|| probe_frame(&key, tier, 2 << 30, &probe_case)) {
         Ok(sig) => {
             let tail: String = crash.stderr_tail.chars().rev().take(1500).collect::<String>().chars().rev().collect();
             rep.fail(&sig, bytes.len(), || {
-                let mut e = example(&space, &fmt, &bytes[..bytes.len().min(4096)], &label, None);
+                let mut e = example(&space, &fmt, &bytes, &label, None);
                 if let Value::Object(m) = &mut e {
-                    m.insert("died".into(), json!({"status": crash.status, "stderr_tail": tail}));
-                    if bytes.len() > 4096 {
-                        m.insert("note".into(), json!("input truncated to 4096 bytes in this record; regenerate from space/label"));
-                        m.insert("input_len".into(), json!(bytes.len()));
-                    }
+                    m.insert("died".into(), json!({"status": crash.status, "stage": crash.stage, "stderr_tail": tail}));
                 }
                 e
             });
         }
         Err(why) => {
-            let n = rep.extra.get("undecided").and_then(|v| v.as_u64()).unwrap_or(0);
-            rep.extra.insert("undecided".into(), json!(n + 1));
-            rep.notes.push(format!("undecided ({why}): space={space} label={label} input={}", show(&bytes[..bytes.len().min(60)])));
+            rep.notes.push(format!("undecided ({why}) in stage {:?}: space={space} label={label} input={}", crash.stage, show(&bytes[..bytes.len().min(60)])));
         }
     }
 }
@@ -661,7 +740,8 @@ fn on_crash(cr: CaseRef<'_>, crash: &Crash, rep: &mut Report) {
 fn explore(ctx: &Ctx, rep: &mut Report) {
     install_hook();
     let sp = spaces(ctx.quick());
-    let defs = sp.defs();
+    let mut defs = sp.defs();
+    only_spaces(&mut defs);
     let cfg = Contain::from_ctx(ctx);
     supervise(&cfg, &defs, rep, &on_crash);
     for (i, d) in defs.iter().enumerate() {
@@ -681,13 +761,14 @@ fn explore(ctx: &Ctx, rep: &mut Report) {
     rep.extra.insert("alphabets".into(), json!({"json_tokens": JT.iter().map(|t| show(t)).collect::<Vec<_>>(), "yaml_tokens": YT.iter().map(|t| show(t)).collect::<Vec<_>>(),
         "dsv_symbols": DT.iter().map(|t| show(t)).collect::<Vec<_>>(), "program_tokens": PT.iter().map(|t| show(t.as_bytes())).collect::<Vec<_>>()}));
     rep.extra.insert("containment".into(), json!({"worker_processes": cfg.threads, "stack_bytes": cfg.stack_bytes, "rlimit_as_bytes": cfg.rlimit_as, "case_watchdog_s": cfg.case_timeout_s}));
-    rep.extra.entry("undecided").or_insert(json!(0));
+    let und = rep.notes.iter().filter(|n| n.starts_with("undecided")).count();
+    rep.extra.insert("undecided".into(), json!(und));
 }
 
 fn replay(case: &Value, rep: &mut Report) {
     install_hook();
     let tier = if tier_is_quick() { "quick" } else { "thorough" };
-    let cfg = Contain { tier: tier.into(), threads: 1, rlimit_as: 3 << 30, case_timeout_s: 30.0, stack_bytes: 8 << 20 };
+    let cfg = Contain { backtrace: false, tier: tier.into(), threads: 1, rlimit_as: 2 << 30, case_timeout_s: 30.0, stack_bytes: 8 << 20 };
     supervise_one(&cfg, case, rep, &on_crash);
 }
 
@@ -712,7 +793,7 @@ fn main() {
         return;
     }
     if is_worker() {
-        worker_main(&run_idx, &run_case);
+        worker_main(&|| { spaces(tier_is_quick()); }, &run_idx, &run_case);
     }
     drive("C19", explore, replay);
 }
